@@ -512,7 +512,7 @@ def leaf_cases(rng, tier):
         for fill in ((0, 0xff, None) if s <= 7 else ((None,) if s <= 300 else (0,))):
             content = rng.bytes(s) if fill is None else bytes([fill]) * s
             enc = uper_open(content)
-            skippable = (s % 3 == 0) or (s == 1 and content == b"\x00")
+            skippable = True     # any size since notes/fixes/D/03 (was: 3n octets or the single octet 00)
             for off in (range(8) if s <= 7 else (0, rng.range(1, 7))):
                 sh = shifted(enc, off, rng.below(1 << off) if off else 0)
                 add("uskip %s %d" % (hexs(sh), off), "valid", ("OK %d" % (8 * len(enc))) if skippable else "FAIL")
